@@ -94,7 +94,12 @@ def _check_inverse(L, C, H, cv, plain=True):
         raise Violation(exc_bucket(e), f"oklch_to_rgb({L},{C},{H}) raised {e!r}")
     if not _valid_rgb(got):
         raise Violation("inverse-invalid", f"oklch_to_rgb({L},{C},{H}) = {got!r} is not a valid 8-bit colour")
-    pre = ook.oklch_to_rgb_pre(L, C, H)
+    try:
+        pre = ook.oklch_to_rgb_pre(L, C, H)
+    except OverflowError:
+        pre = None
+    if pre is None or any(p != p for p in pre):
+        return got  # the reference overflows for astronomically large chroma: only "valid colour, no exception" is judged
     for k in range(3):
         want = int(round(pre[k]))
         if got[k] != want:
@@ -160,16 +165,29 @@ def grey_axis_block(shard, nshards):
 def inverse_judge(case):
     L, C, H = case["L"], case["C"], case["H"]
     got = _check_inverse(L, C, H, _conv())
-    pre = ook.oklab_to_linear(L, C * math.cos(math.radians(H)), C * math.sin(math.radians(H)))
-    oog = any(p < 0 or p > 1 for p in pre)
+    try:
+        pre = ook.oklab_to_linear(L, C * math.cos(math.radians(H)), C * math.sin(math.radians(H)))
+    except OverflowError:
+        pre = (float("inf"),) * 3
+    oog = any(not (0 <= p <= 1) for p in pre)
+    if case.get("as_list"):
+        cv = _conv()
+        try:
+            lg = cv.oklch_to_rgb([L, C, H])
+            ls = cv.oklch_to_rgb_safe([L, C, H])
+        except Exception as e:
+            raise Violation("list-argument:" + exc_bucket(e), f"oklch_to_rgb([{L}, {C}, {H}]) raised {e!r} (the tuple form works)")
+        if tuple(lg) != tuple(got) or ((0.0 <= H <= 360.0) and tuple(ls) != tuple(got)):
+            raise Violation("list-argument-differs", f"oklch_to_rgb / _safe on the LIST [{L}, {C}, {H}] give {lg} / {ls}, on the tuple {got}")
     return {"nt": ("inv", L, C, H) if oog else None, "cls": ["out-of-gamut" if oog else "in-gamut"], "sample": {"L": L, "C": C, "H": H, "rgb": list(got)}}
 
 
 def inverse_strategy():
     L = st.one_of(st.floats(0.0, 1.0, allow_nan=False), st.sampled_from([0.0, 1.0, 0.5, 1e-12, 1 - 1e-12]))
-    C = st.one_of(st.floats(0.0, 0.5, allow_nan=False), st.floats(0.0, 0.5, allow_nan=False), st.floats(0.5, 5.0, allow_nan=False), st.sampled_from([0.0, 1e-12, 0.4, 100.0, 1e3]))
+    C = st.one_of(st.floats(0.0, 0.5, allow_nan=False), st.floats(0.0, 0.5, allow_nan=False), st.floats(0.5, 5.0, allow_nan=False), st.sampled_from([0.0, 1e-12, 0.4, 100.0, 1e3]),
+                  st.floats(1e3, 1e300, allow_nan=False, allow_infinity=False))
     H = st.one_of(st.floats(0.0, 360.0, allow_nan=False), st.floats(0.0, 360.0, allow_nan=False), st.floats(-720.0, 1080.0, allow_nan=False), st.sampled_from([0.0, 90.0, 180.0, 270.0, 360.0]))
-    return st.tuples(L, C, H).map(lambda t: {"L": t[0], "C": t[1], "H": t[2]})
+    return st.tuples(L, C, H, st.integers(0, 7)).map(lambda t: dict({"L": t[0], "C": t[1], "H": t[2]}, **({"as_list": True} if t[3] == 0 else {})))
 
 
 def safe_invalid_judge(case):
@@ -243,6 +261,13 @@ def poison_judge(case):
     checked = 0
     for c in sorted(_aliases(t)):
         _check_forward(c, cv)
+        # the same colour as a LIST: validated wrappers accept it, so plain and safe must agree with the tuple form
+        try:
+            lf, ls = cv.rgb_to_oklch(list(c)), cv.rgb_to_oklch_safe(list(c))
+        except Exception as e:
+            raise Violation("list-argument:" + exc_bucket(e), f"rgb_to_oklch({list(c)}) raised {e!r} (the tuple form works)")
+        if tuple(lf) != tuple(cv.rgb_to_oklch(c)) or tuple(ls) != tuple(lf):
+            raise Violation("list-argument-differs", f"rgb_to_oklch / _safe on the LIST {list(c)} give {lf} / {ls}, on the tuple {cv.rgb_to_oklch(c)}")
         checked += 1
     return {"nt": ("poison", str(t)) if checked else None, "cls": [f"poison:{'float' if any(isinstance(v, float) for v in t) else 'int'}"],
             "sample": {"poison": list(t), "rechecked": [list(c) for c in sorted(_aliases(t))[:3]]}}
